@@ -4,6 +4,7 @@ import (
 	"bytes"
 	"fmt"
 	"math/rand"
+	"os"
 	"strconv"
 
 	"github.com/goccmack/gocc/verifx/internal/gram"
@@ -18,6 +19,10 @@ func init() {
 // lexOpts is the generator domain for the lexer campaigns.
 func lexOpts() gram.LexGenOpts {
 	o := gram.DefaultLexGenOpts()
+	// VERIF_FREE_REGDEFS=1 lifts the S1/S2 restriction (used to validate a repair of finding F3)
+	if os.Getenv("VERIF_FREE_REGDEFS") != "" {
+		o.FreeRegdefs = true
+	}
 	return o
 }
 
